@@ -83,8 +83,23 @@ SUBST_NAMES = ('<xs:schema xmlns:xs="http://www.w3.org/2001/XMLSchema" targetNam
                '<xs:element name="holder" type="t:Holder"/></xs:schema>')
 
 
+# a repeatable choice over the members of THREE substitution groups: with compound_fields.use_substitution_groups the
+# compound field is NAMED after the groups (in the order the choice mentions them)
+SUBST_CHOICE = ('<xs:schema xmlns:xs="http://www.w3.org/2001/XMLSchema" targetNamespace="urn:sg" xmlns:t="urn:sg" elementFormDefault="qualified">'
+                + "".join(f'<xs:element name="{h}" type="xs:string" abstract="true"/>'
+                          + "".join(f'<xs:element name="{h}{i}" type="xs:string" substitutionGroup="t:{h}"/>' for i in (1, 2))
+                          for h in ("zeta", "alpha", "mid"))
+                + '<xs:element name="assets"><xs:complexType><xs:choice maxOccurs="unbounded">'
+                + "".join(f'<xs:element ref="t:{h}"/>' for h in ("zeta", "alpha", "mid"))
+                + '</xs:choice></xs:complexType></xs:element>'
+                '<xs:element name="pair"><xs:complexType><xs:choice maxOccurs="unbounded"><xs:element ref="t:mid"/><xs:element ref="t:alpha"/>'
+                '</xs:choice></xs:complexType></xs:element></xs:schema>')
+SUBST_OPTS = ("compound-substitution-groups", {"compound_fields.enabled": True, "compound_fields.use_substitution_groups": True, "compound_fields.max_name_parts": 4})
+
+
 def source_sets():
     sets = []
+    sets.append(("subst-groups-choice", {"sg.xsd": SUBST_CHOICE}, ["sg.xsd"]))
 
     def fx(*parts):
         return str(FIX.joinpath(*parts))
@@ -174,7 +189,7 @@ def run(ctx):
         sets = source_sets()
         n = 0
         for sname, files, main in sets:
-            for oname, opts in OPTION_SETS if not ctx.quick else OPTION_SETS[:1] + [OPTION_SETS[(len(sname)) % 4 + 1]]:
+            for oname, opts in ([SUBST_OPTS] if sname == "subst-groups-choice" else []) + (OPTION_SETS if not ctx.quick else OPTION_SETS[:1] + [OPTION_SETS[(len(sname)) % 4 + 1]]):
                 spec = {"files": files, "main": main, "options": opts, "repeat": 2}
                 spath = os.path.join(work, "spec.json")
                 json.dump(spec, open(spath, "w"))
